@@ -29,8 +29,10 @@ static int denotes_number(const char *s) { while (*s == ' ') s++; return (*s >= 
 int ReadInteger(SDAI_Integer &val, const char *s, ErrorDescriptor *err, const char *) { g_readers_called++; if (denotes_number(s)) { val = 0; return 1; } err->GreaterSeverity(SEVERITY_WARNING); return 0; }
 int ReadReal(SDAI_Real &val, const char *s, ErrorDescriptor *err, const char *) { g_readers_called++; if (denotes_number(s)) { val = 0.0; return 1; } err->GreaterSeverity(SEVERITY_WARNING); return 0; }
 int ReadNumber(SDAI_Real &val, const char *s, ErrorDescriptor *err, const char *) { g_readers_called++; if (denotes_number(s)) { val = 0.0; return 1; } err->GreaterSeverity(SEVERITY_WARNING); return 0; }
-Severity CheckRemainingInput(istream &, ErrorDescriptor *e, const char *, const char *) { g_cri_calls++; return e->severity(); }
-Severity CheckRemainingInput(istream &, ErrorDescriptor *e, const std::string, const char *) { g_cri_calls++; return e->severity(); }
+/* contract stub (under contract in unit str_cc): garbage before the delimiter is a warning added to the descriptor it is given */
+static int g_cri_garbage;
+Severity CheckRemainingInput(istream &, ErrorDescriptor *e, const char *, const char *) { g_cri_calls++; if (g_cri_garbage) e->GreaterSeverity(SEVERITY_WARNING); return e->severity(); }
+Severity CheckRemainingInput(istream &, ErrorDescriptor *e, const std::string, const char *) { g_cri_calls++; if (g_cri_garbage) e->GreaterSeverity(SEVERITY_WARNING); return e->severity(); }
 /* ---- recording stubs for the reference-reading callees (their own units: read_func / aggregate readers) ---- */
 static SDAI_Application_instance *g_ref_result; static Severity g_evl_result; static const TypeDescriptor *g_evl_desc; static int g_evl_calls;
 static InstMgrBase *g_ref_instances, *g_aggr_instances, *g_sel_instances; static long g_nil_storage[64];
